@@ -6,6 +6,9 @@ PROPERTY = 'C19'
 LEVEL = 'exploration'
 ENGINE = 'bex'
 FLAVOURS = ('plain', 'asan')
+# plain flavour under the glibc malloc checker: a byte written past the end of a heap block (also by the uninstrumented
+# Fortran BLAS / LAPACK, which the sanitizer cannot see) aborts the process in free() -> reported as a killed interpreter
+EXTRA_ENV = {'plain': {'LD_PRELOAD': '/lib/x86_64-linux-gnu/libc_malloc_debug.so.0', 'MALLOC_CHECK_': '3'}}
 RULE = ('(A) small boxes: for every cvxopt.blas function and every integer argument, the argument ranges over -2..4 (and the '
         'leading dimensions / increments over their whole small box) with every buffer sized exactly as needed, one shorter and '
         'one longer; the accept / reject decision of the wrapper must coincide with the footprint computed with unbounded integers '
@@ -38,6 +41,10 @@ def cases(tier, seed, flavour):
         yield {'part': 'lapack-list'}
         for i in range(0, 70, 5):
             yield {'part': 'lapack-large', 'lo': i, 'hi': i + 5}
+    yield {'part': 'buffer-import'}
+    # every lapack wrapper with small offsets / leading dimensions / orders on exactly sized operands
+    for i in range(0, 70, 5):
+        yield {'part': 'lapack-small', 'lo': i, 'hi': i + 5}
     for k in ('scale', 'scale2', 'pack', 'pack2', 'unpack', 'symm', 'sprod', 'sinv', 'trisc', 'triusc', 'sdot', 'max_step'):
         yield {'part': 'kernel-short', 'k': k}
     for f in ('gemm', 'gemv', 'syrk', 'symv', 'axpy'):
@@ -61,6 +68,21 @@ def cases(tier, seed, flavour):
 
 
 # ------------------------------------------------------------------------------------------------ helpers
+def _adopt(pid, keep=True):
+    """sanitizer reports of a forked child belong to the case that forked it (keep=False: the outcome of the call is
+    already judged by the caller, e.g. a kernel that accepted a vector known to be too short - the report is dropped)."""
+    try:
+        from mc import asan
+        if keep:
+            asan.adopt(pid)
+        else:
+            base = os.environ.get('VERIF_ASAN_LOG')
+            if base and os.path.exists('%s.%d' % (base, pid)):
+                os.unlink('%s.%d' % (base, pid))
+    except Exception:
+        pass
+
+
 def _lf():
     """per-call time limits are meant for an idle machine; stretched by load average / cores when other jobs compete."""
     try:
@@ -70,7 +92,7 @@ def _lf():
         return 1.0
 
 
-def _forked(fn, timeout=10):
+def _forked(fn, timeout=10, adopt=True):
     """run fn() in a forked child.  returns ('exc', name) | ('ok', None) | ('signal', n) | ('timeout', None)."""
     import resource
     r, w = os.pipe()
@@ -104,6 +126,7 @@ def _forked(fn, timeout=10):
         data += chunk
     os.close(r)
     _, st = os.waitpid(pid, 0)
+    _adopt(pid, keep=adopt)
     if os.WIFSIGNALED(st):
         sg = os.WTERMSIG(st)
         return ('timeout', None) if sg == signal.SIGALRM else ('signal', sg)
@@ -156,6 +179,7 @@ def _forked_batch(fns, timeout=10, groups=None):
             data += chunk
         os.close(r)
         _, st = os.waitpid(pid, 0)
+        _adopt(pid)
         started = -1
         for line in data.split(b'\n'):
             if not line:
@@ -377,7 +401,7 @@ def _lapack_templates(pos):
         out = []
         for nm in pos:
             if nm in int_names:
-                out.append(matrix(0, (n, 1), 'i'))
+                out.append(matrix(list(range(1, n + 1)), (n, 1), 'i'))      # identity pivots / permutation: valid contents
             elif nm in vec_names:
                 out.append(matrix([2.0 + i for i in range(n)], (n, 1), 'd'))
             elif nm in ('kl', 'ku', 'kd', 'k'):
@@ -468,7 +492,7 @@ def run_kernel_short(case):
                  'sprod': lambda: ms.sprod(short, full, d), 'sinv': lambda: ms.sinv(short, lam, d),
                  'trisc': lambda: ms.trisc(short, d), 'triusc': lambda: ms.triusc(short, d),
                  'sdot': lambda: ms.sdot(short, full, d), 'max_step': lambda: ms.max_step(short, d)}
-        res = _forked(calls[k])
+        res = _forked(calls[k], adopt=False)
         n += 1
         outcomes[res[0]] = outcomes.get(res[0], 0) + 1
         if res[0] == 'ok':
@@ -620,8 +644,96 @@ def run_sparse_index(case):
     return {'n': nev, 'nontrivial': nt, 'viol': viol, 'outcomes': {'sparse-index-' + mode: nev}}
 
 
+def run_lapack_small(case):
+    """every lapack wrapper on exactly sized small operands with each integer keyword (order, leading dimension,
+    offset, band width, ...) set to 1..4 and each pair of them to (1,1), (1,2), (2,1): the wrapper either refuses the
+    call or stays inside the operands.  The sanitizer flavour decides the second part (reports of the forked child are
+    attributed to this case); in both flavours a killed interpreter is a violation."""
+    from cvxopt import lapack
+    names = sorted(n for n in dir(lapack) if not n.startswith('_') and callable(getattr(lapack, n)))
+    viol = []
+    n = nt = 0
+    outcomes = {}
+    for nm in names[case['lo']:case['hi']]:
+        fn = getattr(lapack, nm)
+        sg = _lapack_sig(fn)
+        if sg is None:
+            continue
+        pos, kws = sg
+        intkw = [k for k, d in kws if not (d.startswith("'") or d in ('None',) or k in ('select', 'jobz', 'uplo', 'trans', 'side', 'diag', 'range', 'jobu', 'jobvt', 'itype', 'vl', 'vu', 'abstol'))]
+        plan = []
+        for ti, tmpl in enumerate(_lapack_templates(pos)[:2]):
+            def fresh(tmpl=tmpl):
+                return [+a if hasattr(a, 'size') else a for a in tmpl]
+            plan.append(({}, fresh))
+            for k in intkw:
+                for v in (1, 2, 3, 4):
+                    plan.append(({k: v}, fresh))
+            for a in range(len(intkw)):
+                for b in range(a + 1, len(intkw)):
+                    for (va, vb) in ((1, 1), (1, 2), (2, 1)):
+                        plan.append(({intkw[a]: va, intkw[b]: vb}, fresh))
+        results = _forked_batch([(lambda kw=kw, fresh=fresh: fn(*fresh(), **kw)) for (kw, fresh) in plan])
+        for (kw, _), res in zip(plan, results):
+            n += 1
+            nt += 1 if kw else 0
+            outcomes[res[0]] = outcomes.get(res[0], 0) + 1
+            if res[0] in ('signal', 'timeout'):
+                viol.append({'key': 'C19:lapack.%s:small-arguments:interpreter-killed' % nm,
+                             'msg': 'lapack.%s(..., %s) on small matrices killed the interpreter (%s %r)' % (nm, kw, res[0], res[1]),
+                             'sub': {'f': nm, 'kw': kw}})
+                break
+    return {'n': n, 'nontrivial': nt, 'viol': viol, 'outcomes': outcomes}
+
+
+def run_buffer_import(case):
+    """matrix(x, tc=...) / spmatrix(x, I, J, tc=...) for buffer exporters of every item width (windows of a larger array, so that
+    the words next to the exported items hold a sentinel): the values are those of the exported items, whatever the target
+    typecode - no item is read with the wrong width.  (heap exporters: the sanitizer flavour sees reads past their end)"""
+    import array
+    from cvxopt import matrix, spmatrix
+    viol = []
+    n = 0
+    SENT = {'i': 0x5A5A5A5A, 'l': 0x5A5A5A5A5A5A5A5A >> 1, 'q': 0x5A5A5A5A5A5A5A5A >> 1, 'd': 1.2345e300, 'f': 1.2345e30}
+    for code in ('i', 'l', 'd', 'f'):
+        vals = [3, -2, 7] if code in 'ilq' else [1.5, -2.25, 8.0]
+        big = array.array(code, [SENT[code]] * 2 + vals + [SENT[code]] * 2)
+        exact = array.array(code, vals)
+        for name, mk in (('array', lambda: exact), ('window', lambda: memoryview(big)[2:5]), ('reversed-window', lambda: memoryview(big)[4:1:-1]),
+                         ('one-item', lambda: memoryview(big)[3:4])):
+            src = list(mk())
+            for tc in (None, 'i', 'd', 'z'):
+                n += 1
+                try:
+                    M = matrix(mk(), tc=tc) if tc else matrix(mk())
+                except (TypeError, ValueError, BufferError):
+                    continue
+                got = list(M)
+                if len(got) != len(src) or any(complex(g) != complex(w) for g, w in zip(got, src)):
+                    viol.append({'key': 'C19:buffer-import:matrix:values-not-those-of-the-exported-items',
+                                 'msg': 'matrix(%s of array(%r), tc=%r) = %r, exported items %r' % (name, code, tc, got, src),
+                                 'sub': {'code': code, 'form': name, 'tc': tc}})
+                    break
+            if code in 'ild' and len(src) == 3:
+                for tc in ('d', 'z'):
+                    n += 1
+                    try:
+                        S = spmatrix(mk(), [0, 1, 2], [0, 0, 1], (3, 2), tc)
+                    except (TypeError, ValueError, BufferError):
+                        continue
+                    if [complex(t) for t in S.V] != [complex(t) for t in src]:
+                        viol.append({'key': 'C19:buffer-import:spmatrix:values-not-those-of-the-exported-items',
+                                     'msg': 'spmatrix(%s of array(%r), ..., tc=%r).V = %r, exported items %r' % (name, code, tc, list(S.V), src)})
+                        break
+    return {'n': n, 'nontrivial': n, 'viol': viol[:4], 'outcomes': {'buffer-imports': n}}
+
+
 def run(case):
     p = case['part']
+    if p == 'buffer-import':
+        return run_buffer_import(case)
+    if p == 'lapack-small':
+        return run_lapack_small(case)
     if p == 'sparse-index':
         return run_sparse_index(case)
     if p == 'blas-box':
